@@ -10,6 +10,7 @@ AST (JSON-serialisable):
   recipe: {"version": 2|3, "options": [[name, value]], "stmts": [stmt]}
 """
 import io
+import os
 
 from . import common as C
 
@@ -315,6 +316,15 @@ class Gen:
 def gen_recipe(rng, weights=None):
     g = Gen(rng, weights)
     r = g.recipe()
+    # equivalent spellings / inputs (C14): a prefix of the recipe moved into an included file; option
+    # values supplied by the user (falsy ones included) instead of taken from the declared default
+    if rng.random() < g.w.get("include_spelling", 0.1) and r["stmts"]:
+        r["include_prefix"] = rng.randint(0, len(r["stmts"]))
+        g.features.add("include_file_spelling")
+    if r["options"] and rng.random() < g.w.get("supply_options", 0.35):
+        r["supplied"] = {n: rng.choice([0, 1, 3, "", "0", "7", "x y", v]) for n, v in r["options"] if rng.random() < 0.7}
+        if r["supplied"]:
+            g.features.add("options_supplied")
     if "random_reference" in g.features:       # parameters of the injected draw stream (chooser_for)
         r["raw"] = [rng.randint(0, 10 ** 6) for _ in range(60)]
         r["bias"] = rng.choice(["lo", "hi", "mix", "mix"])
@@ -375,15 +385,31 @@ def stmt_yaml(s):
     return {"var": s[1], "value": fdef_yaml(s[2])}
 
 
-def recipe_yaml(r):
-    import yaml
-    doc = [{"snowfakery_version": r["version"]}]
+def recipe_docs(r):
+    """(main document, included document or None): with r["include_prefix"] = k the option / macro
+    declarations and the first k statements live in a file pulled in by `include_file` at the top of the
+    main file - by C14 the same recipe as the inline spelling"""
+    head = []
     for n, v in r["options"]:
-        doc.append({"option": n, "default": v})
+        head.append({"option": n, "default": v})
     for name, fields in r.get("macros", []):
-        doc.append({"macro": name, "fields": {n: fdef_yaml(d) for n, d in fields}})
-    doc.extend(stmt_yaml(s) for s in r["stmts"])
-    return yaml.safe_dump(doc, sort_keys=False, default_flow_style=False, width=1000)
+        head.append({"macro": name, "fields": {n: fdef_yaml(d) for n, d in fields}})
+    stmts = [stmt_yaml(s) for s in r["stmts"]]
+    k = r.get("include_prefix")
+    if k is None:
+        return [{"snowfakery_version": r["version"]}] + head + stmts, None
+    k = max(0, min(int(k), len(stmts)))
+    inc = head + stmts[:k]
+    if not inc:
+        return [{"snowfakery_version": r["version"]}] + stmts, None
+    return [{"snowfakery_version": r["version"]}, {"include_file": "inc_part.yml"}] + stmts[k:], inc
+
+
+def recipe_yaml(r):
+    """the inline spelling (one document)"""
+    import yaml
+    main, _ = recipe_docs(dict(r, include_prefix=None))
+    return yaml.safe_dump(main, sort_keys=False, default_flow_style=False, width=1000)
 
 
 # ----------------------------------------------------------------------------- Coq rendering
@@ -445,7 +471,8 @@ def value_coq(v):
 
 def recipe_coq(r, draws=()):
     """draws: the results of random.Random._randbelow recorded over the whole history"""
-    opts = C.clist(C.cpair(C.cstr(n), value_coq(v)) for n, v in r["options"])
+    sup = r.get("supplied") or {}
+    opts = C.clist(C.cpair(C.cstr(n), value_coq(sup.get(n, v))) for n, v in r["options"])
     stmts = C.clist(stmt_coq(s) for s in r["stmts"])
     return f"(mkRecipe {r['version']} {opts} {stmts} {C.clist(C.cz(d) for d in draws)})"
 
@@ -565,14 +592,37 @@ def run_recipe(recipe, reps=1, user_options=None, continuation=None, want_contin
     app = SnowfakeryApplication(crit)
     app.echo = lambda *a, **k: None
     out_cont = io.StringIO() if want_continuation else None
+    opts = dict(recipe.get("supplied") or {})
+    opts.update(user_options or {})
+    tmpdir, stream = None, None
     try:
-        generate(io.StringIO(recipe.get("raw_yaml") or recipe_yaml(recipe)), dict(user_options or {}), cap, app,
+        main, inc = (None, None) if recipe.get("raw_yaml") else recipe_docs(recipe)
+        if inc is not None:
+            import tempfile
+            import yaml
+            tmpdir = tempfile.mkdtemp(prefix="sfv_inc_", dir="/var/tmp")
+            with open(os.path.join(tmpdir, "inc_part.yml"), "w") as f:
+                f.write(yaml.safe_dump(inc, sort_keys=False, default_flow_style=False, width=1000))
+            with open(os.path.join(tmpdir, "main.yml"), "w") as f:
+                f.write(yaml.safe_dump(main, sort_keys=False, default_flow_style=False, width=1000))
+            stream = open(os.path.join(tmpdir, "main.yml"))
+        else:
+            stream = io.StringIO(recipe.get("raw_yaml") or recipe_yaml(recipe))
+        generate(stream, opts, cap, app,
                  generate_continuation_file=out_cont,
                  continuation_file=io.StringIO(continuation) if continuation else None)
     except BaseException as e:
         if type(e).__name__ == "_CaseTimeout":
             raise
         return {"err": C.canon_exc(e), "msg": str(e)[:300], "rows": cap.rows}
+    finally:
+        if tmpdir:
+            try:
+                stream.close()
+            except Exception:
+                pass
+            import shutil
+            shutil.rmtree(tmpdir, ignore_errors=True)
     return {"ok": cap.rows, "cont": out_cont.getvalue() if out_cont else None}
 
 
